@@ -386,4 +386,55 @@ theorem build_shift {x x' : BCtx} (hc : x'.c = x.c) (hcfg : x'.cfg = x.cfg) (sf 
       simp only [Val.shift, Val.shiftList, build, (process_shift hc hcfg sf fuel).2.2.1 k hk]
   | _ => simp only [Val.shift, build]
 
+/-! ## the whole load -/
+
+theorem rows_of_check {g : Grammar} {p : Nat} {ins : List Char} {toks' : Array (Array (Option Nat))}
+    {skipws : Bool} {ws : List Char} (h : gapExtOkB g p ins toks' skipws ws = true) : rowsOkB g = true := by
+  unfold gapExtOkB at h
+  simp only [Bool.and_eq_true] at h
+  exact h.1.1.2
+
+/-- **`metamodel.model_from_str` on the gap-extended input gives the same outcome**: under the side conditions
+of the parse-level theorem (`gapExtOkB`) and — with `use_regexp_group` — compatible group tables, the mirror of
+parse + model construction returns on the extended input exactly what it returns on the original one: the
+same model (classes, attribute values, creation order, parents), or the same error, for every fuel. -/
+theorem load_gapExt (c : Compiled) (cfg : Config) (input : Array Char) (toks toks' : Array (Array (Option Nat)))
+    (groups : Array Nat) (g1 g1' : Array (Array (Option (Nat × Nat)))) (p : Nat) (ins : List Char)
+    (h : gapExtOkB (c.grammar input toks) p ins toks' cfg.skipws cfg.ws = true)
+    (hg : cfg.useRegexpGroup = false ∨ g1CompatB g1 g1' input.size p ins.length = true) (fuel : Nat) :
+    load c cfg (extendGap input p ins) toks' groups g1' fuel = load c cfg input toks groups g1 fuel := by
+  obtain ⟨hx, hs, hw⟩ := ext_of_check h
+  have hrows := rows_of_check h
+  have hp : p ≤ input.size := hx.input.le
+  have hR0 : R p ins.length 0 0 := by
+    unfold R sh
+    by_cases h : 0 < p
+    · left; simp [h]
+    · right; omega
+  have h0 : SR ins p ins.length (initState true cfg.ws) (initState true cfg.ws) :=
+    ⟨⟨rfl, hw, hw, fun h => by simp [initState] at h⟩, hR0, rfl, rfl, rfl, rfl, rfl, rfl, trivial⟩
+  obtain ⟨hr, _⟩ := (parse_rel hx fuel c.top _ _ h0).1
+  have hcl := parse_terms_clear (p := p) (k := ins.length) hx.memo hx.toks hrows fuel c.top (initState true cfg.ws)
+  unfold load
+  rw [hs]
+  have hgr : c.grammar (extendGap input p ins) toks' = (c.grammar input toks).ext p ins toks' := rfl
+  rw [hgr]
+  rcases h1 : parse (c.grammar input toks) fuel c.top (initState true cfg.ws) with ⟨r, t⟩
+  rcases h2 : parse ((c.grammar input toks).ext p ins toks') fuel c.top (initState true cfg.ws) with ⟨r', t'⟩
+  rw [h1, h2] at hr
+  simp only at hr
+  cases hr with
+  | ok v =>
+    simp only
+    have hv := hcl v t h1
+    have hcx : CtxExt { c := c, cfg := cfg, input := input, groups := groups, g1 := g1 }
+        { c := c, cfg := cfg, input := extendGap input p ins, groups := groups, g1 := g1' } p ins :=
+      ⟨rfl, rfl, rfl, rfl, hp, hg⟩
+    have hv' : v.allTerms (clearB input.size p) = true := hv
+    have hv2 := Val.allTerms_mono (fun n q l hh => termSame_of_clear hcx n q l hh) v hv'
+    exact build_shift hcx.c hcx.cfg (sh p ins.length) fuel v hv2
+  | nom => rfl
+  | fuel => rfl
+  | bad => rfl
+
 end Tx
